@@ -3,7 +3,9 @@
 pid=$1; shift
 for p in "$@"; do p=$(realpath "$p")
   git -C /repo apply "$p" || { echo "APPLY-FAILED $p"; continue; }
+  cp /verif/evidence/$pid.json /tmp/evidence_$pid.keep 2>/dev/null
   out=$(/verif/check $pid quick 2>&1); rc=$?
   git -C /repo checkout -- .
+  cp /tmp/evidence_$pid.keep /verif/evidence/$pid.json 2>/dev/null  # evidence files describe the unchanged tree only
   echo "== $(basename $p): exit=$rc"; echo "$out" | grep -E '^(VIOLATION|UNDECIDED|KNOWN)' | head -5
 done
